@@ -621,7 +621,7 @@ def c16(tier):
     vols = "ok,pad:1024,pad:61440,pad:66000,pad:71680,pad:1048576,pad:8388608,split:1,split:2,split:5,early"
     vols += "," + ",".join("trunc:%d" % k for k in range(0, 31))       # a 31-variable model cut after every literal
     # the four child behaviours of ExtSat.tla x input above the pipe capacity x output above the pipe capacity
-    vols += ",ok@200,pad:200000@200,earlypad:1024,earlypad:200000,earlypad:200000@200,interleave:1024@200,interleave:400000@200,noread:0,noread:0@200,noread:200000@200"
+    vols += ",ok@200,ok@1500,pad:200000@1500,pad:200000@200,earlypad:1024,earlypad:200000,earlypad:200000@200,interleave:1024@200,interleave:400000@200,noread:0,noread:0@200,noread:200000@200"
     vols += ",lategarbage:0,lategarbage:4000,lategarbage:9000,lategarbage:70000,lategarbage:200000"
     if thorough:
         vols += ",pad:33554432,pad:65536,pad:65537,pad:131072,earlypad:8388608@2000,interleave:8388608@2000,noread:8388608@2000,ok@20000"
